@@ -4,6 +4,8 @@ import DarkluaModel.Shared.VisitorSound
 import DarkluaModel.Rules.Witness
 import DarkluaModel.C08.Thm
 import DarkluaModel.C06.Whole
+import DarkluaModel.C06.IfExprLemmas
+import DarkluaModel.C06.IfExprU
 import DarkluaModel.C06.CompoundWhole
 import DarkluaModel.C06.InterpFormat
 import DarkluaModel.C06.CompoundGuard
@@ -49,35 +51,6 @@ theorem compound_on_variable_exact (op : BinOp) (hop : isCompoundOp op = true) (
       storeTarget, first] <;>
     (cases evalE call ρ k env v σ <;> (try simp [Res.bind]) <;>
       (try (generalize binopVal call ρ k _ (lookupVar env n σ) _ _ = res; cases res <;> simp)))
-
-/-- `remove_if_expression`, first encoding: when the static evaluator says the result `r` is
-truthy (`htruthy`: every successful evaluation of `r` yields a truthy first value — what property
-C08 establishes for `Evaluator::evaluate(r).is_truthy() == Some(true)`),
-`if c then r else e` ⇒ `c and r or e` has exactly the same denotation: `c` once, then `r` or `e` once,
-result truncated to one value. -/
-theorem ifexpr_and_or_exact (c r e : Expr)
-    (htruthy : ∀ σ vs σ', evalE call ρ k env r σ = .ok vs σ' → (first vs).truthy = true) (σ : State N) :
-    evalE call ρ k env (.bin .or (.bin .and c r) e) σ = evalE call ρ k env (.ifx c r [] e) σ := by
-  simp only [evalE, evalElifs]
-  cases hc : evalE call ρ k env c σ with
-  | ok cv σ1 =>
-    simp only [Res.bind]
-    by_cases ht : (first cv).truthy = true
-    · simp only [ht, if_true]
-      cases hr : evalE call ρ k env r σ1 with
-      | ok ws σ2 =>
-        have := htruthy σ1 ws σ2 hr
-        simp only [first, List.headD_eq_head?_getD] at this
-        simp [Res.bind, first, this]
-      | err v σ2 => simp [Res.bind]
-      | timeout => simp [Res.bind]
-    · have ht' : (first cv).truthy = false := by simpa using ht
-      simp only [ht', Bool.false_eq_true, if_false]
-      simp only [first, List.headD_eq_head?_getD] at ht'
-      simp [Res.bind, first, ht']
-  | err v σ1 => simp [Res.bind]
-  | timeout => simp [Res.bind]
-
 
 /-! ## whole-rule theorems through the generic lifting theorem (`Shared/VisitorSound.lean`) -/
 
@@ -133,67 +106,6 @@ open Rules.Witness in
 example : firstStr (evalE call0 ρ0 1 env0 f25Witness σ0) = some [98] ∧
     firstStr (evalE call0 ρ0 1 env0 (RemoveIfExpression.processExpression strTruthy f25Witness) σ0) = some [98] := by
   decide
-
-/-- a taken `elseif` branch yields exactly one value -/
-theorem evalElifs_single : ∀ (ps : List (Expr × Expr)) (σ σ' : State N) (vs : List (Val N)),
-    evalElifs call ρ k env ps σ = .ok (some vs) σ' → vs = [first vs]
-  | [], σ, σ', vs, h => by simp [evalElifs] at h
-  | (c, t) :: rest, σ, σ', vs, h => by
-    simp only [evalElifs] at h
-    cases hc : evalE call ρ k env c σ with
-    | ok cv σ1 =>
-      simp only [hc, Res.bind] at h
-      by_cases ht : (first cv).truthy = true
-      · simp only [ht, if_true] at h
-        cases hr : evalE call ρ k env t σ1 with
-        | ok ws σ2 =>
-          simp only [hr, Res.bind, Res.ok.injEq, Option.some.injEq] at h
-          rw [← h.1]; rfl
-        | err v σ2 => simp [hr, Res.bind] at h
-        | timeout => simp [hr, Res.bind] at h
-      · simp only [ht, Bool.false_eq_true, if_false] at h
-        exact evalElifs_single rest σ1 σ' vs h
-    | err v σ1 => simp [hc, Res.bind] at h
-    | timeout => simp [hc, Res.bind] at h
-
-/-- the first `elseif` is an if-expression in the else position -/
-theorem ifx_cons_elif (c t c1 t1 : Expr) (rest : List (Expr × Expr)) (e : Expr) (σ : State N) :
-    evalE call ρ k env (.ifx c t ((c1, t1) :: rest) e) σ = evalE call ρ k env (.ifx c t [] (.ifx c1 t1 rest e)) σ := by
-  simp only [evalE, evalElifs]
-  cases evalE call ρ k env c σ with
-  | ok cv σ1 =>
-    simp only [Res.bind]
-    by_cases ht : (first cv).truthy = true
-    · simp [ht]
-    · simp only [ht, Bool.false_eq_true, if_false]
-      cases evalE call ρ k env c1 σ1 with
-      | ok cv1 σ2 =>
-        simp only [Res.bind]
-        by_cases ht1 : (first cv1).truthy = true
-        · simp only [ht1, if_true]
-          cases evalE call ρ k env t1 σ2 <;> simp [Res.bind, first]
-        · simp only [ht1, Bool.false_eq_true, if_false]
-          cases hel : evalElifs call ρ k env rest σ2 with
-          | ok r σ3 =>
-            cases r with
-            | some vs =>
-              have := evalElifs_single call ρ k env rest σ2 σ3 vs hel
-              simp only [Res.bind, Res.ok.injEq, and_true]
-              exact this
-            | none =>
-              simp only [Res.bind]
-              cases evalE call ρ k env e σ3 <;> simp [Res.bind, first]
-          | err v σ3 => simp [Res.bind]
-          | timeout => simp [Res.bind]
-      | err v σ2 => simp [Res.bind]
-      | timeout => simp [Res.bind]
-  | err v σ1 => simp [Res.bind]
-  | timeout => simp [Res.bind]
-
-/-- the else position of an if-expression is a congruence -/
-theorem ifx_congr_else (c t e e' : Expr) (h : ∀ σ, evalE call ρ k env e' σ = evalE call ρ k env e σ) (σ : State N) :
-    evalE call ρ k env (.ifx c t [] e') σ = evalE call ρ k env (.ifx c t [] e) σ := by
-  simp only [evalE, evalElifs, h]
 
 /-- **`remove_if_expression`, `and`/`or` encoding, ANY number of `elseif` branches** (true since the fix
 of F25; before it only for at most one `elseif`): when every branch result is known truthy the hook's
@@ -391,6 +303,42 @@ theorem ifexpr_boxed_full_false : ¬ ifexpr_boxed_full := by
   rcases hfull (fun _ => false) w oddOps (fun _ _ _ => []) 3 [] (fun _ => rfl) with h | h
   · rw [h, h1] at h2; revert h2; decide
   · exact h3 h
+
+/-! ### `remove_if_expression` as a whole (stage 4 with pinned right tables, `C06/IfExprU.lean`) -/
+
+/-- **the table-boxed encoding, ANY branches** (allocation, calls, errors): the lowered program exhausts its
+budget — reading the box costs one unit of the call-back budget, the if-expression none — or has the same
+observable outcome; for EVERY program, every number system in which the literal `1` is the index `1`
+(`IfU.One`; `ifexpr_boxed_full_false` shows it is needed), every flat oracle (external functions return no
+heap references). -/
+theorem ifexpr_boxed_partial (b : Block) (hone : IfU.One N) (ρ : ExtOracle N) (hρ : Sem.HeapU.OracleFlat ρ)
+    (n : Nat) (externs : List String) :
+    runProgram ρ n externs (RemoveIfExpression.apply (fun _ => false) b) = .timeout ∨
+      runProgram ρ n externs (RemoveIfExpression.apply (fun _ => false) b) = runProgram ρ n externs b :=
+  IfU.refines (fun _ => false) (fun _ => True) b (IfU.okB_gTrue b) hone
+    (fun _ _ h => by cases h) ρ hρ n externs
+
+-- non-vacuity: `return if f() then {} else g()` is boxed; a number system with `One`
+example : RemoveIfExpression.apply (fun _ => false)
+    (.mk [] (some (.ret [.ifx (.call (.var "f") none .tuple []) (.table []) [] (.call (.var "g") none .tuple [])]))) =
+  .mk [] (some (.ret [.index (.paren (.bin .or
+      (.bin .and (.call (.var "f") none .tuple []) (.table [.pos (.table [])]))
+      (.table [.pos (.paren (.call (.var "g") none .tuple []))]))) numOne])) := rfl
+example : IfU.One Rules.Witness.unitOps := rfl
+example : Sem.HeapU.OracleFlat (N := Rules.Witness.unitOps) (fun _ _ _ => []) := fun _ _ _ _ h => by cases h
+
+/-- **`remove_if_expression` as a whole with the static evaluator's verdicts**, both encodings: for programs
+whose if-expression results are inside C08's hypothesis `h8`, number systems that agree with the evaluator
+(`C08.Agree`) and in which the literal `1` is the index `1`, flat oracles — the lowered program exhausts its
+budget or has the same observable outcome. -/
+theorem rule_refines_remove_if_expression (E : Evaluator.EvalOps N) (A : C08.Agree N E) (b : Block)
+    (hg : VisitorOn.okB (IfU.gIf fun r => C08.h8 E r = true) b) (hone : IfU.One N) (ρ : ExtOracle N)
+    (hρ : Sem.HeapU.OracleFlat ρ) (n : Nat) (externs : List String) :
+    runProgram ρ n externs (RemoveIfExpression.apply (evalTruthy E) b) = .timeout ∨
+      runProgram ρ n externs (RemoveIfExpression.apply (evalTruthy E) b) = runProgram ρ n externs b :=
+  IfU.refines (evalTruthy E) (fun r => C08.h8 E r = true) b hg hone
+    (fun r h8 ht call ρ k env σ σ' vs h =>
+      C08.truthy_sound A call ρ k env r σ σ' vs true h8 (by simpa [evalTruthy] using ht) h) ρ hρ n externs
 
 /-! ## `remove_floor_division` -/
 
